@@ -7,7 +7,7 @@ query by `./check C11`.  `WF` (Model/IRWF.lean) is the decidable conjunction of 
 clauses; the theorems below are its clauses for every query the modelled frontend accepts, over
 every schema view.  `WF` is additionally evaluated on every real IR by the driver.
 -/
-import TrustfallModel.Proofs.FrontendWF
+import TrustfallModel.Proofs.FrontendTags
 
 namespace TF.C11
 open TF TF.Engine TF.Frontend TF.Spec
@@ -41,9 +41,40 @@ theorem toIR_variables_recorded {S : SchemaView} {q : Query} {ir : IRQuery}
     (h : toIR S q = .ok ir) : wfVarsC ir.variables ir.rootComponent = true :=
   toIR_vars h
 
+/-- Clause 5: tags are defined at vertices resolved before their uses.  Every tag operand `r` of a
+filter at vertex `v` (for a fold's post-filter, `v` is the fold's root, as in `make_fold`) has
+`defined_at(r) ≤ v`, and `r` is either defined in the using component (a vertex of it, or the count
+of one of its folds) or imported by an enclosing fold; every imported tag of a fold is defined in
+the fold's parent component at a vertex `≤` the fold's root.  With clause 1 (vertex `u` is recorded
+by edge `u - 1`) this is the execution order. -/
+theorem toIR_tags_defined_before_use {S : SchemaView} {q : Query} {ir : IRQuery}
+    (h : toIR S q = .ok ir) : wfTagsC [] ir.rootComponent = true :=
+  (toIR_tags_imports h).1
+
+/-- Clause 6: `fold.imported_tags`, as a set, is exactly the set of tagged fields used inside the
+fold at any depth (vertex filters, post-filters of nested folds) and defined in the fold's parent
+component.  (The list may contain a field twice — F-10 — which is why this is a statement about
+sets; a field defined further out is imported by the fold directly below *its* component, and
+reaches inner folds through the context, which clause 5 accounts for.) -/
+theorem toIR_imports_exact {S : SchemaView} {q : Query} {ir : IRQuery} (h : toIR S q = .ok ir) :
+    wfImportsC ir.rootComponent = true :=
+  (toIR_tags_imports h).2
+
+/-- C11: every query the (modelled) frontend accepts, over any schema, compiles to a structurally
+well-formed IR. -/
+theorem toIR_wf {S : SchemaView} {q : Query} {ir : IRQuery} (h : toIR S q = .ok ir) :
+    WF ir = true := by
+  simp only [WF, Bool.and_eq_true]
+  exact ⟨⟨⟨⟨⟨⟨(toIR_edge_numbering h).1, toIR_ids_unique h⟩, toIR_fold_intervals h⟩,
+    (toIR_edge_numbering h).2⟩, toIR_tags_defined_before_use h⟩, toIR_imports_exact h⟩,
+    toIR_variables_recorded h⟩
+
 end TF.C11
 
 #print axioms TF.C11.toIR_edge_numbering
 #print axioms TF.C11.toIR_ids_unique
 #print axioms TF.C11.toIR_fold_intervals
 #print axioms TF.C11.toIR_variables_recorded
+#print axioms TF.C11.toIR_tags_defined_before_use
+#print axioms TF.C11.toIR_imports_exact
+#print axioms TF.C11.toIR_wf
